@@ -65,7 +65,12 @@ pub static INTERP_FAMILY: std::sync::atomic::AtomicU8 = std::sync::atomic::Atomi
 
 pub static CALC_LOG: std::sync::Mutex<Vec<usize>> = std::sync::Mutex::new(Vec::new());
 
-fn calc_fn(_prog: &[u8], pc: usize, data: &mut dyn Any) -> u16 {
+fn calc_fn(prog: &[u8], pc: usize, data: &mut dyn Any) -> u16 {
+    // asked about the placeholder program a VM may hold before the case's program is loaded: a
+    // decoy value, so that an answer remembered across set_program() is recognisably wrong later
+    if prog.len() == DUMMY_PROG.len() && prog == &DUMMY_PROG[..] {
+        return 56;
+    }
     if let Ok(mut l) = CALC_LOG.lock() {
         if l.len() < 4096 {
             l.push(pc);
